@@ -27,6 +27,16 @@ Sub-checks
              inputs + keyword dictionary, shard 0 from an empty corpus; crash
              and timeout artifacts are judged by the 'strings' oracle
   termination (finite list) inputs with super-linear risk
+  depreuse   reuse after a failure that involved the search path: a forest
+             of classes (superclass / reference / EmbeddedInstance
+             dependencies) each in its own file of the search path, missing,
+             or in a broken or wrong file; step 1 fails while resolving it,
+             the defects are repaired (in the MOF text or in the search
+             path), step 2 is valid MOF that needs the same classes.  Run
+             against a repository that does not keep rejected classes (a
+             strict BaseRepositoryConnection, or FakedWBEMConnection as the
+             handle); the same compiler must do what a new compiler for the
+             same repository does
 
 Oracle (all sub-checks): the call terminates within TIMEOUT seconds; the
 outcome is success, a MOFCompileError, or OSError where a file is involved;
@@ -87,6 +97,15 @@ RULE = (
     "call k >= 2 or more than one fault (repofault).  Distinct = distinct "
     "generated example.")
 ASSUMPTIONS = [
+    "CR is in the lexer's t_ignore and is no line end: replacing every CR "
+    "by a blank keeps tokens, offsets and line count, so the position of an "
+    "error must not change (not applied when a CR follows a quote on its "
+    "line, where it may be inside a literal)",
+    "depreuse: the repository content is the same for both compilers "
+    "because the same deterministic sequence is run on two new "
+    "repositories; the search path content changes between the two "
+    "compiles (files added or corrected), which the property's 'any search "
+    "path content' covers",
     "OSError is accepted only when the input involves a file: compile_file, "
     "or text containing an include pragma (compile_file documents IOError "
     "for a missing file; the include pragma is compiled through "
@@ -151,6 +170,19 @@ SENSITIVITY = [
     "resolution of the file name (seeded change2) -> files/leak:"
     "RecursionError:include-cycle (missed at first: all generated includes "
     "resolved directly; the searchgraph structure was added)",
+    "t_newline matches (\\r?\\n)+ and still adds len(t.value) to lineno "
+    "(seeded change3) -> strings/position:lineno-or-column-changes-when-CR-"
+    "is-replaced-by-blank:lineno, strings|mock/position:lineno-is-not-the-"
+    "line-of-the-illegal-character, .../lineno-outside-input (missed at "
+    "first: no CR-LF blank lines were generated; line-end styles, CR-LF "
+    "separators and the CR-invariance relation were added)",
+    "p_mp_createClass records a dependent class as known before resolving "
+    "it (seeded change4) -> depreuse/depreuse:valid-mof-fails-only-on-the-"
+    "compiler-that-had-a-failed-compile:MOFDependencyError:dependency-was-"
+    "{missing,file,broken}-at-step-1 (missed at first: the reuse clause was "
+    "checked only with a unit without search-path dependencies on a "
+    "MOFWBEMConnection, which keeps rejected classes; the depreuse "
+    "sub-check was added)",
     "atheris sub-check (thorough): with fixes e8fc8c2, 548ce5d and 7276afb "
     "reverted in a scratch worktree, libFuzzer started from the repository "
     "test MOF files and the keyword dictionary only reaches the hex-escape "
